@@ -591,6 +591,11 @@ fn terminal_variants(t: &PathProofTerminal, pool: &Pool, lookup: &Key) -> Vec<(&
                 out.push(("terminator-path", PathProofTerminal::Terminator(TriePosition::from_path_and_depth(other, d))));
                 let flipped = util::flip_bit(lookup, (d - 1) as usize);
                 out.push(("terminator-path", PathProofTerminal::Terminator(TriePosition::from_path_and_depth(flipped, d))));
+                // every single bit of the (short) position flipped
+                for b in 1..(d as usize).saturating_sub(1).min(24) {
+                    let flipped = util::flip_bit(lookup, b);
+                    out.push(("terminator-path-bit", PathProofTerminal::Terminator(TriePosition::from_path_and_depth(flipped, d))));
+                }
             }
         }
     }
@@ -825,7 +830,29 @@ impl<'a> Sound<'a> {
         None
     }
 
-    fn check_multi(&self, vm: &nomt_core::proof::VerifiedMultiProof, what: &str, wmax: usize, calls: &mut u64) -> Option<Violation> {
+    fn check_multi(&self, vm: &nomt_core::proof::VerifiedMultiProof, n_paths: usize, what: &str, wmax: usize, calls: &mut u64) -> Option<Violation> {
+        // the index-based entry points, for every index
+        for l in &self.probes {
+            for i in 0..n_paths {
+                *calls += 2;
+                if let Ok(Ok(true)) = std::panic::catch_unwind(std::panic::AssertUnwindSafe(|| vm.confirm_value_with_index(l, i))) {
+                    if !self.truth_value(l) {
+                        return Some(v(
+                            "false-value-confirmed",
+                            format!("{what}: confirm_value_with_index(.., {i}) confirms value of key {} which is false", hex(&l.key_path[..4])),
+                        ));
+                    }
+                }
+                if let Ok(Ok(true)) = std::panic::catch_unwind(std::panic::AssertUnwindSafe(|| vm.confirm_nonexistence_with_index(&l.key_path, i))) {
+                    if self.t.set.contains_key(&l.key_path) {
+                        return Some(v(
+                            "false-nonexistence-confirmed",
+                            format!("{what}: confirm_nonexistence_with_index(.., {i}) confirms non-existence of present key {}", hex(&l.key_path[..4])),
+                        ));
+                    }
+                }
+            }
+        }
         for l in &self.probes {
             *calls += 2;
             if let Ok(true) = vm.confirm_value(l) {
@@ -868,7 +895,11 @@ fn honest_multis(t: &Trie, qmax: usize) -> Vec<(Vec<usize>, MultiProof)> {
     let honest: Vec<PathProof> = fam.iter().map(|k| t.honest(k)).collect();
     let mut out = vec![];
     let mut seen = BTreeSet::new();
-    for q in subsets_upto(fam.len(), qmax) {
+    // every query set of ≤ qmax keys, plus the query for ALL family keys (the multi-proof with the
+    // largest number of terminals this trie has)
+    let mut queries = subsets_upto(fam.len(), qmax);
+    queries.push((0..fam.len()).collect());
+    for q in queries {
         if q.is_empty() {
             continue;
         }
@@ -1035,7 +1066,7 @@ impl ProofX {
                     let what = format!("S={mask:#x} multi-proof Q={q:?} [{class}]");
                     let r2 = std::panic::catch_unwind(std::panic::AssertUnwindSafe(|| {
                         let mut c = 0u64;
-                        let r = sound.check_multi(&vm, &what, wmax, &mut c);
+                        let r = sound.check_multi(&vm, obj.paths.len(), &what, wmax, &mut c);
                         (r, c)
                     }));
                     if let Ok((r, c)) = r2 {
@@ -1091,6 +1122,148 @@ fn guarded<T>(f: impl FnOnce() -> T) -> Result<T, String> {
 }
 
 impl ProofX {
+    /// Values of the public proof types that only a deserialiser can build (the `serde` feature
+    /// of nomt-core): a `TriePosition` whose depth / node index is outside what the constructors
+    /// allow, inside a path proof or a multi-proof. Every verifier entry point must return a
+    /// verdict for them as well.
+    fn run_c18_serde(&mut self, case: &Value) -> Outcome {
+        let mask = case["s"].as_u64().unwrap() as u32;
+        let t = Trie::new(mask);
+        let fam = t.fam.clone();
+        let mut out = Outcome::default();
+        out.nontrivial = true;
+        let mut found: BTreeMap<String, String> = BTreeMap::new();
+        let mut objects = 0u64;
+        // field values to plant into every integer field of a serialised terminal / path
+        let extremes: Vec<u64> = vec![0, 1, 255, 256, 257, 300, 4095, 65535];
+        fn int_paths(v: &Value, cur: &mut Vec<String>, outp: &mut Vec<Vec<String>>) {
+            match v {
+                Value::Object(m) => {
+                    for (k, x) in m {
+                        cur.push(k.clone());
+                        int_paths(x, cur, outp);
+                        cur.pop();
+                    }
+                }
+                Value::Array(a) => {
+                    // byte arrays (keys, nodes) are not interesting here: only short arrays of objects
+                    if a.iter().all(|x| x.is_number()) {
+                        return;
+                    }
+                    for (i, x) in a.iter().enumerate() {
+                        cur.push(i.to_string());
+                        int_paths(x, cur, outp);
+                        cur.pop();
+                    }
+                }
+                Value::Number(_) => outp.push(cur.clone()),
+                _ => {}
+            }
+        }
+        fn set_at(v: &mut Value, path: &[String], nv: u64) {
+            let mut cur = v;
+            for p in path {
+                cur = if cur.is_array() { &mut cur[p.parse::<usize>().unwrap()] } else { &mut cur[p.as_str()] };
+            }
+            *cur = json!(nv);
+        }
+        let mut record = |entry: &str, field: &str, msg: String, found: &mut BTreeMap<String, String>| {
+            let fp = format!("panic:{entry}:deserialised:{}", msg_class(&msg));
+            found.entry(fp).or_insert_with(|| format!("{entry} panicked on a deserialised object (field {field} over S={mask:#x}): {msg} (at {})", crate::last_panic_location()));
+        };
+        // path proofs
+        for k in fam.iter() {
+            let honest = t.honest(k);
+            let base = serde_json::to_value(&honest).expect("serialise path proof");
+            let mut fields = vec![];
+            int_paths(&base, &mut vec![], &mut fields);
+            for f in &fields {
+                for &x in &extremes {
+                    let mut v = base.clone();
+                    set_at(&mut v, f, x);
+                    let Ok(obj) = serde_json::from_value::<PathProof>(v) else { continue };
+                    objects += 1;
+                    let fname = f.join(".");
+                    match guarded(|| obj.verify::<H>(k.view_bits::<Msb0>(), t.root)) {
+                        Err(m) => record("PathProof::verify", &fname, m, &mut found),
+                        Ok(Ok(vp)) => {
+                            let leaf = LeafData { key_path: *k, value_hash: vh(0, 0) };
+                            if let Err(m) = guarded(|| {
+                                let _ = vp.confirm_value(&leaf);
+                                let _ = vp.confirm_nonexistence(k);
+                                let _ = verify_update::<H>(t.root, &[PathUpdate { inner: vp.clone(), ops: vec![(*k, Some(vh(1, 1)))] }]);
+                            }) {
+                                record("VerifiedPathProof::*", &fname, m, &mut found);
+                            }
+                        }
+                        Ok(Err(_)) => {}
+                    }
+                }
+            }
+        }
+        // multi-proofs over every pair of keys and over all keys
+        let mut queries: Vec<Vec<usize>> = subsets_upto(fam.len(), 2).into_iter().filter(|q| !q.is_empty()).collect();
+        queries.push((0..fam.len()).collect());
+        let honest_paths: Vec<PathProof> = fam.iter().map(|k| t.honest(k)).collect();
+        for q in queries {
+            let mut proofs: Vec<(usize, PathProof)> = vec![];
+            for &qi in &q {
+                let p = honest_paths[qi].clone();
+                let d = p.siblings.len();
+                if proofs.iter().any(|(oi, o)| o.siblings.len() == d && prefix_eq(&fam[qi], &fam[*oi], d)) {
+                    continue;
+                }
+                proofs.push((qi, p));
+            }
+            proofs.sort_by(|a, b| fam[a.0][..].cmp(&fam[b.0][..]));
+            let mp = MultiProof::from_path_proofs(proofs.iter().map(|(_, p)| p.clone()).collect());
+            let base = serde_json::to_value(&mp).expect("serialise multi-proof");
+            let mut fields = vec![];
+            int_paths(&base, &mut vec![], &mut fields);
+            for f in &fields {
+                for &x in &extremes {
+                    let mut v = base.clone();
+                    set_at(&mut v, f, x);
+                    let Ok(obj) = serde_json::from_value::<MultiProof>(v) else { continue };
+                    objects += 1;
+                    let fname = f.join(".");
+                    let n_paths = obj.paths.len();
+                    match guarded(|| verify_multi_proof::<H>(&obj, t.root)) {
+                        Err(m) => record("verify_multi_proof", &fname, m, &mut found),
+                        Ok(Ok(vm)) => {
+                            if let Err(m) = guarded(|| {
+                                for k in fam.iter() {
+                                    let leaf = LeafData { key_path: *k, value_hash: vh(0, 0) };
+                                    let _ = vm.find_index_for(k);
+                                    let _ = vm.confirm_value(&leaf);
+                                    let _ = vm.confirm_nonexistence(k);
+                                    for i in 0..n_paths {
+                                        let _ = vm.confirm_value_with_index(&leaf, i);
+                                        let _ = vm.confirm_nonexistence_with_index(k, i);
+                                    }
+                                }
+                                let _ = verify_multi_proof_update::<H>(&vm, vec![(fam[0], Some(vh(1, 1)))]);
+                            }) {
+                                record("VerifiedMultiProof::*", &fname, m, &mut found);
+                            }
+                        }
+                        Ok(Err(_)) => {}
+                    }
+                }
+            }
+        }
+        out.transitions = objects;
+        out.states.push(mask as u64 | 1 << 41);
+        out.sig = fnv_str(&format!("serde{mask}:{objects}"));
+        if objects > 0 {
+            out.goals.push("deserialised-extreme-objects-built");
+        }
+        let mut it = found.into_iter().map(|(fp, msg)| v(&fp, msg));
+        out.violation = it.next();
+        out.more = it.collect();
+        out
+    }
+
     fn run_c18(&mut self, case: &Value) -> Outcome {
         let mask = case["s"].as_u64().unwrap() as u32;
         let qmax = case["qmax"].as_u64().unwrap() as usize;
@@ -1307,11 +1480,16 @@ impl Engine for ProofX {
             }
             "C18" => {
                 let (smax, qmax) = if thorough { (5, 3) } else { (3, 2) };
-                let cases = masks_upto(12, smax)
+                let mut cases: Vec<Value> = masks_upto(12, smax)
                     .into_iter()
                     .map(|(m, k)| json!({"mode": "c18", "s": m, "bound": k, "qmax": qmax}))
                     .collect();
-                let mut p = Plan::new(cases, format!("proofx: every object of the C08 mutation grammar without the 'verifies' filter plus structural extremes (depth ∈ {{0,1,255,256,257,2^63,usize::MAX}}, 255..300 siblings, empty/duplicated/prefix-related path lists, key slices of length 0/3/len/256, operation lists empty/unsorted/duplicated/out-of-scope/all-keys), over every key set S of ≤{smax} keys; each public verifier entry point (PathProof::verify, confirm_*, verify_update, verify_multi_proof, confirm_*_with_index for every valid index, find_index_for, verify_multi_proof_update) is called under catch_unwind in an isolated child process with a timeout; any panic / abort / timeout is a violation, fingerprinted by (entry point, mutation class, panic class)."));
+                // objects only a deserialiser can build (serde feature of nomt-core)
+                for (m, k) in masks_upto(12, if thorough { 3 } else { 2 }) {
+                    cases.push(json!({"mode": "c18serde", "s": m, "bound": k}));
+                }
+                cases.sort_by_key(|c| c["bound"].as_u64().unwrap());
+                let mut p = Plan::new(cases, format!("proofx: every object of the C08 mutation grammar without the 'verifies' filter plus structural extremes (depth ∈ {{0,1,255,256,257,2^63,usize::MAX}}, 255..300 siblings, empty/duplicated/prefix-related path lists, key slices of length 0/3/len/256, operation lists empty/unsorted/duplicated/out-of-scope/all-keys), over every key set S of ≤{smax} keys; each public verifier entry point (PathProof::verify, confirm_*, verify_update, verify_multi_proof, confirm_*_with_index for every valid index, find_index_for, verify_multi_proof_update) is called under catch_unwind in an isolated child process with a timeout; any panic / abort / timeout is a violation, fingerprinted by (entry point, mutation class, panic class). Plus values only a deserialiser can build (nomt-core's serde feature): every honest path proof and every multi-proof over ≤2 and over all keys of every S of ≤2 (thorough 3) keys is serialised, every integer field (terminator depth, node index, multi-path depth) is replaced by each of {{0,1,255,256,257,300,4095,65535}}, and whatever deserialises is fed to every entry point."));
                 p.budget_s = if thorough { 1700 } else { 55 };
                 p.isolate = true;
                 p.case_timeout_s = 600;
@@ -1329,6 +1507,7 @@ impl Engine for ProofX {
             "c07comb" => self.run_c07_comb(case),
             "c08" => self.run_c08(case),
             "c18" => self.run_c18(case),
+            "c18serde" => self.run_c18_serde(case),
             m => panic!("bad mode {m}"),
         }
     }
